@@ -23,7 +23,7 @@ ASSUMPTIONS = [
     "forked / multi-process savers are exercised in-process only",
     "threaded scenarios run under two deterministic schedules (keep running the current thread / always switch to the newest enabled thread), so operation numbering is stable within a scenario; schedule x fault combinations only in the thorough tier (delay bound 1)",
 ]
-BOUNDS = {"quick": "20 scenarios, all single faults + retry", "thorough": "20 scenarios, single faults + retry + second fault during retry (every k2 for a rotating slice of k); schedule exploration of pool/threaded saving with one fault"}
+BOUNDS = {"quick": "22 scenarios (two with a second writable frontend), all single faults + retry", "thorough": "22 scenarios, single faults + retry + second fault during retry (every k2 for a rotating slice of k); schedule exploration of pool/threaded saving with one fault"}
 RUN = "0"
 
 IV = ((0, 1), (2, 3), (4, 5), (5, 6))
@@ -50,11 +50,12 @@ class Scenario:
 
 
 class MakeScenario(Scenario):
-    def __init__(self, gname, bounds, rechunk, processor, workers=None, call="make", prebroken=False, forbid=None, inline=False, policy="first"):
+    def __init__(self, gname, bounds, rechunk, processor, workers=None, call="make", prebroken=False, forbid=None, inline=False, policy="first", two=False):
         self.gname, self.bounds, self.rechunk, self.processor, self.workers, self.call, self.prebroken = gname, bounds, rechunk, processor, workers, call, prebroken
         self.policy = policy
+        self.two = two  # a second writable storage frontend: every computed type is saved to both
         self.inline = inline  # allow_multiprocess + parallel='process' plugins -> ParallelSourcePlugin with inlined (forked) savers, run in-process
-        self.name = f"{call}:{gname}:{processor}:w{workers}:rc{rechunk}:b{len(bounds)-1}" + (":prebroken" if prebroken else "") + (":inlined" if inline else "") + (":sched-last" if policy == "last" else "")
+        self.name = f"{call}:{gname}:{processor}:w{workers}:rc{rechunk}:b{len(bounds)-1}" + (":prebroken" if prebroken else "") + (":inlined" if inline else "") + (":sched-last" if policy == "last" else "") + (":two-frontends" if two else "")
         self.threaded = processor == "threaded_mailbox"
         self.spec = g.catalogue()[gname]
         self.sources = {n["name"]: dict(iv=IV, bounds=bounds) for n in self.spec if n["kind"] == "source"}
@@ -83,9 +84,15 @@ class MakeScenario(Scenario):
         cl = self.classes()
         opts = dict(g.CTX_DEFAULTS)
         opts.update(allow_rechunk=self.rechunk is not None, allow_multiprocess=self.inline)
+        import shutil as _sh
 
-        def ctx():
-            return strax.Context(storage=[strax.DataDirectory(d)], register=cl, **opts)
+        _sh.rmtree(d + "_b", ignore_errors=True)
+
+        def ctx(only=None):
+            dirs = [d] + ([d + "_b"] if self.two else [])
+            if only is not None:
+                dirs = [dirs[only]]
+            return strax.Context(storage=[strax.DataDirectory(x) for x in dirs], register=cl, **opts)
 
         def action():
             st = ctx()
@@ -214,6 +221,9 @@ def scenarios(tier):
             SaverScenario(True, 1, policy="last"),
             MakeScenario("chain2", b3, 2, "threaded_mailbox", workers=2, policy="last"),
             MakeScenario("chain2", b2, None, "threaded_mailbox", policy="last"),
+            # two writable frontends: the failure of EITHER frontend's saver must reach the caller
+            MakeScenario("chain2", b2, None, "threaded_mailbox", two=True),
+            MakeScenario("chain2", b2, None, "single_thread", two=True),
         ]
     return S
 
@@ -292,6 +302,15 @@ def run_fault(res, sc, si, fault, fault2=None, controlled=True, choices=None):
     ok_all = verify(res, sc, ctx, should, case, "after-fault", require_all=(fault is None))
     if fault is not None and fired and fault[0] == "raise" and exc is None and not ok_all:
         res.violation(f"fault:failed-save-reported-as-success:{sc.name.split(':')[0]}", f"I/O error at op {fault[1]} but the caller saw no exception and not everything requested is stored", case)
+    if getattr(sc, "two", False) and fault is not None and fired and fault[0] == "raise" and exc is None:
+        # with two writable frontends the save to EACH of them is a save: if the caller saw no error, both must be complete
+        fsfault.ST.reset()
+        for k in (0, 1):
+            stk = ctx(only=k)
+            missing = [t for t in should if not stk.is_stored(RUN, t)]
+            if missing:
+                res.violation(f"fault:failed-save-reported-as-success:frontend{k}:{sc.name.split(':')[0]}", f"I/O error at op {fault[1]}: the caller saw no exception but frontend {k} does not hold {missing}", case)
+                break
     if fault is None and exc is not None:
         res.violation("nofault:" + ctxrun.exc_fp(exc), f"fault-free run raised {exc!r}"[:300], case)
     # ---- retry (identical request, no manual cleanup)
